@@ -198,7 +198,7 @@ Proof.
     destruct (i_roots _ _ _ I) as (e0 & e1 & _ & _ & _ & _ & _ & _ & _ & _ & _ & _ & _ & _ & _ & M0 & M1).
     destruct x as [|[|x]]; [congruence|congruence|lia]. }
   destruct (fill_paths w ord) as [w1|c] eqn:Ef; [|discriminate]. cbn [rbind] in H.
-  destruct (fill_paths_pres g ord w w1 I Hord Ef) as (I1 & T1 & P1).
+  destruct (fill_paths_pres g ord w w1 I Hord Ef) as (I1 & T1 & P1 & _).
   assert (Htick: tick w1 = (fst (tick w1), now (w_st w1) + 1000)) by reflexivity.
   rewrite Htick in H.
   pose proof (Inv_tick g w1 I1) as I2. set (w2 := fst (tick w1)) in *.
